@@ -199,14 +199,88 @@ func observeTrie(k *K, t *trie.Trie, m *setModel, probes []string, what string) 
 	return trieStructure(k, t, what)
 }
 
-// jsonRebuild marshals t and unmarshals into a fresh trie.
+// heldJSON is a JSON form obtained directly from MarshalJSON and kept, without
+// copying, while further operations and marshals run.
+type heldJSON struct {
+	data    []byte
+	members []string
+	what    string
+}
+
+// jsonRebuild marshals t and unmarshals into another trie, which is returned.
+//
+// The JSON form is taken both through encoding/json and directly from
+// t.MarshalJSON(); the direct result is HELD (not copied) and checked at a
+// later call — after more updates and more marshals of this and other tries —
+// to still rebuild the set it was taken from, then overwritten (it is the
+// caller's). The target of Unmarshal is, in turn, a fresh trie, a fresh trie
+// that has already been observed while empty, and a trie that had members,
+// was observed, and was emptied again by Delete.
 func jsonRebuild(k *K, t *trie.Trie, what string) *trie.Trie {
+	if k.stash == nil {
+		k.stash = map[string]any{}
+	}
+	holds, _ := k.stash["heldJSON"].([]heldJSON)
+	calls, _ := k.stash["jsonCalls"].(int)
+	k.stash["jsonCalls"] = calls + 1
 	b, err := json.Marshal(t)
 	if err != nil {
 		k.Failf("json", "%s: Marshal failed: %v", what, err)
 		return nil
 	}
+	direct, err := t.MarshalJSON()
+	if err != nil {
+		k.Failf("json", "%s: MarshalJSON failed: %v", what, err)
+		return nil
+	}
+	var members []string
+	t.ForEach(func(x []byte) bool { members = append(members, string(x)); return true })
+	sort.Strings(members)
+	// earlier held results must still rebuild what they were taken from
+	for len(holds) > 0 && (len(holds) > 2 || calls%2 == 1) {
+		h := holds[0]
+		holds = holds[1:]
+		t3 := trie.New()
+		var got []string
+		if err := t3.UnmarshalJSON(h.data); err == nil {
+			t3.ForEach(func(x []byte) bool { got = append(got, string(x)); return true })
+			sort.Strings(got)
+		}
+		if err != nil || fmt.Sprint(got) != fmt.Sprint(h.members) {
+			k.Failf("json-held", "the JSON returned by MarshalJSON %s, held while later operations and marshals ran, now reads %.300q and rebuilds %.300q (error %v); it was taken from the set %.300q", h.what, h.data, got, err, h.members)
+			return nil
+		}
+		for i := range h.data {
+			h.data[i] = '#'
+		}
+		k.Count("held_json_verified", 1)
+	}
+	holds = append(holds, heldJSON{direct, members, what})
+	k.stash["heldJSON"] = holds
 	t2 := trie.New()
+	switch (calls + int(k.Idx%3)) % 3 {
+	case 1: // observed while empty
+		t2.Has([]byte("a"))
+		t2.ForEach(func([]byte) bool { return true })
+		json.Marshal(t2)
+		k.Count("unmarshal_into_observed_empty", 1)
+	case 2: // had members, observed, emptied
+		for _, x := range []string{"ab", "b", "\x00\xff", "abc"} {
+			t2.Add([]byte(x))
+		}
+		t2.ForEach(func([]byte) bool { return true })
+		t2.Has([]byte("ab"))
+		for _, x := range []string{"a", "b", "\x00"} {
+			t2.Delete([]byte(x))
+		}
+		n := 0
+		t2.ForEach(func([]byte) bool { n++; return true })
+		if n != 0 {
+			k.Failf("json", "%s: a trie emptied by Delete still reports %d members", what, n)
+			return nil
+		}
+		k.Count("unmarshal_into_emptied", 1)
+	}
 	if err := json.Unmarshal(b, t2); err != nil {
 		k.Failf("json", "%s: Unmarshal of %s failed: %v", what, b, err)
 		return nil
@@ -263,7 +337,7 @@ func init() {
 		SelfTest:    trieSelfTest,
 		Units: []Unit{
 			{Name: "exhaustive", QShards: 4, TShards: 12, Run: c15Exhaustive},
-			{Name: "random", QShards: 6, TShards: 12, Run: c15Random},
+			{Name: "random", QShards: 10, TShards: 14, Run: c15Random},
 			{Name: "fanout", Run: c15Fanout},
 		},
 	})
